@@ -9,6 +9,14 @@ ALL = ["C%02d" % i for i in range(1, 21)]
 
 # id -> dict(level, technique, text, note, design_ref, engine)
 CHECKS = {
+    "C08": dict(
+        level="exploration",
+        engine="E1-enum",
+        technique="bounded-exhaustive enumeration of operand pairs over a boundary alphabet in every integer representation, adjudicated by an arbitrary-precision integer oracle",
+        text="All ordered pairs of the boundary points of [-2^127, 2^128) (0, +-1, small, 2^31, 2^32, 2^53, 2^63, 2^64, 2^127 each +-1, 2^126, 2^128-1, ...) in every representation that can hold them (literal, i64, u64, i128, u128) x {+,-,*,//,%,**} and unary minus are evaluated through compile_expression/eval and compared with exact big-integer arithmetic: in-range results must be exact, out-of-range ones exact or an error, never another integer, and the same mathematical operands must give the same outcome in every representation. The Euclid identity/range is checked for all pairs of small dyadic floats and ints, and 12 comparison forms for every integer x 29 floats against exact rational comparison. Wrap-around and sign loss live exactly at these boundary points; complete enumeration of their pairs decides the property for the alphabet.",
+        note="Trusted: the ~300-line big-integer oracle (self-tested against i128 at every start). Operands off the boundary alphabet are not explored. The -2^127 literal is judged through unary minus only (known finding).",
+        design_ref="2/C08",
+    ),
     "C09": dict(
         level="exploration",
         engine="E1-enum",
